@@ -53,6 +53,7 @@ type Case struct {
 	Events     *EventsCase     `json:"events,omitempty"`
 	Classifier *ClassifierCase `json:"classifier,omitempty"`
 	Graffiti   *GraffitiCase   `json:"graffiti,omitempty"`
+	Auction    *AuctionCase    `json:"auction,omitempty"`
 }
 
 // panicRec is one recovered panic.
@@ -119,6 +120,8 @@ func panicClass(msg string) string {
 		return "out-of-memory"
 	case strings.Contains(msg, "stack overflow"), strings.Contains(msg, "stack exceeds"):
 		return "stack-overflow"
+	case strings.Contains(msg, "too large to convert"):
+		return "int-range"
 	case strings.Contains(msg, "closed channel"):
 		return "closed-channel"
 	case strings.Contains(msg, "all goroutines are asleep"):
@@ -182,6 +185,7 @@ func sigFromStack(stack string) (string, string) {
 	}
 	var frames []string
 	vouchSig, libSig := "", ""
+	viaUtil := false
 	for i := start; i+1 < len(lines); i++ {
 		l := lines[i]
 		if l == "" {
@@ -209,7 +213,10 @@ func sigFromStack(stack string) (string, string) {
 			}
 			frames = append(frames, pkg[strings.LastIndex(pkg, "/")+1:]+"."+fn+" @ "+filepath.Base(locShort))
 		}
-		if vouchSig == "" && strings.HasPrefix(pkg, vouchPath) {
+		if strings.HasPrefix(pkg, vouchPath) && (vouchSig == "" || viaUtil) {
+			// vouch's util helpers (conversions, ValidatorPubkey) are shared by dozens of call sites:
+			// the finding is named after the first caller outside util, if there is one.
+			viaUtil = pkg == vouchPath+"util"
 			vouchSig = "panic:" + strings.TrimPrefix(pkg, vouchPath) + "/" + filepath.Base(file) + ":" + fn
 		}
 		if libSig == "" && !strings.HasPrefix(pkg, "runtime") && !strings.HasPrefix(pkg, "testing") &&
@@ -301,6 +308,8 @@ func dispatch(c *Case, out *outcome) {
 		runClassifier(c.Classifier, out)
 	case c.Target == "graffiti" && c.Graffiti != nil:
 		runGraffiti(c.Graffiti, out)
+	case c.Target == "auction" && c.Auction != nil:
+		runAuction(c.Auction, out)
 	default:
 		out.harness = "case without a known target: " + c.Target
 	}
